@@ -245,6 +245,11 @@ def build(chk):
                 conj.append(f_cmp('le', alo, ZERO) if alo.tag != 'nan' else False)
                 conj.append(f_cmp('ge', ahi, ONE) if kind == 1 else f_cmp('eq', ahi, ONE))
                 continue
+            if kind == 1:
+                # reported as binary without a BV bound: only an integer column whose range is exactly [0,1] has the same value domain
+                conj += [d['integer'], elo.tag == 'fin' and f_cmp('eq', elo, ZERO), ehi.tag == 'fin' and f_cmp('eq', ehi, ONE),
+                         f_cmp('le', alo, ZERO) if alo.tag != 'nan' else False, f_cmp('ge', ahi, ONE) if ahi.tag != 'nan' else False]
+                continue
             if d['open_if_neg'] is not None:
                 neg = f_cmp('lt', d['open_if_neg'], ZERO)
                 conj.append(z3.If(z3bool(neg), z3.BoolVal(alo.tag == 'ninf'), z3bool(alo.tag == 'fin' and f_cmp('eq', alo, ZERO))))
